@@ -12,7 +12,7 @@ man = {
         "guard": "verif (Go build tag)",
         "enable": "go1.26.8 test -c -tags verif -overlay build/overlay.json -modfile build/go.mod in /repo (harness sources are overlaid into package main; nothing is copied into /repo)",
         "baseline_off_cmd": "cd /repo && export PATH=/root/go/pkg/mod/golang.org/toolchain@v0.0.1-go1.23.7.linux-amd64/bin:$PATH GOTOOLCHAIN=local GOFLAGS=-mod=mod GOPROXY=off GOSUMDB=off && go build ./... && go test -vet=off -count=1 -timeout 25m ./...",
-        "source_commits": ["7ae9208", "5fe43ff"],
+        "source_commits": ["7ae9208", "5fe43ff", "a6b4c07"],
         "add_only": True,
     },
     "engines": [{
